@@ -34,8 +34,17 @@ import (
 
 func init() { subs["c10"] = c10 }
 
-func c10Addr(n int) common.Address { return common.BigToAddress(big.NewInt(int64(n))) }
-func c10Num(a common.Address) int  { return int(new(big.Int).SetBytes(a[:]).Int64()) }
+// Test addresses differ in three bytes: byte 0 carries the label (so bytes.Compare = label order), byte 19
+// runs the OTHER way and byte 10 is unrelated — a comparison that looked at the last byte only, at a
+// little-endian number or at the hex/base26 text would rank them differently.
+func c10Addr(n int) common.Address {
+	var a common.Address
+	a[0] = byte(n)
+	a[10] = byte((n * 7) % 5)
+	a[19] = byte(0xff - n)
+	return a
+}
+func c10Num(a common.Address) int { return int(a[0]) }
 
 type c10Acct struct {
 	flag  byte // 'n' no profile, 'y' isCandidate=true, 'u' isCandidate=false
@@ -66,6 +75,14 @@ func c10AcctData(ch c10Change) *types.AccountData {
 		a.Candidate.Profile[types.CandidateKeyIsCandidate] = types.IsCandidateNode
 	case 'u':
 		a.Candidate.Profile[types.CandidateKeyIsCandidate] = types.NotCandidateNode
+	case 'o':
+		// a candidate profile whose isCandidate entry is neither "true" nor "false" (buildProfile keeps a
+		// user-supplied string on first registration), or is missing although the profile is not empty
+		if ch.addr%2 == 0 {
+			a.Candidate.Profile[types.CandidateKeyIsCandidate] = "yes"
+		} else {
+			a.Candidate.Profile[types.CandidateKeyHost] = "127.0.0.1"
+		}
 	}
 	return a
 }
@@ -266,6 +283,10 @@ func (s *c10Store) registeredInView(id int, universe int) (reg []c10CV, flags ma
 				reg = append(reg, c10CV{a, acc.Candidate.Votes.Int64()})
 			case types.NotCandidateNode:
 				f = 'u'
+			default:
+				if len(acc.Candidate.Profile) > 0 {
+					f = 'o'
+				}
 			}
 		}
 		flags[a] = f
